@@ -686,15 +686,20 @@ impl C17 {
 
     /// functional relation graph: f[i] = n means absolute, otherwise relative to instance f[i]
     fn run_place(&self, f: &[usize], listing: &[usize], key: &str, cx: &mut Cx) {
-        self.run_place_listed(f, listing, listing.len(), key, cx);
+        self.run_place_listed(f, listing, listing.len(), false, key, cx);
+        if f.iter().any(|&t| t < f.len()) {
+            // the relatively placed instances handed over in `Layout::places` (as `Placeable::Instance`) instead
+            self.run_place_listed(f, listing, listing.len(), true, key, cx);
+            cx.tag("place-order-via-places");
+        }
         if listing.len() >= 2 {
             // the last instance of the listing exists but is not listed in the layout: it takes part only if some
             // listed instance is placed relative to it (directly or through a chain)
-            self.run_place_listed(f, listing, listing.len() - 1, key, cx);
+            self.run_place_listed(f, listing, listing.len() - 1, false, key, cx);
             cx.tag("place-order-unlisted-target");
         }
     }
-    fn run_place_listed(&self, f: &[usize], listing: &[usize], nlisted: usize, key: &str, cx: &mut Cx) {
+    fn run_place_listed(&self, f: &[usize], listing: &[usize], nlisted: usize, via_places: bool, key: &str, cx: &mut Cx) {
         use tetris::{instance::Instance, layout::Layout, outline::Outline, placement::*};
         cx.stats.executions += 1;
         cx.stats.transitions += listing.len() as u64;
@@ -705,7 +710,7 @@ impl C17 {
                 g.adj[i] |= 1 << f[i];
             }
         }
-        let sfx = if nlisted == listing.len() { "" } else { "-unlisted-target" };
+        let sfx = if via_places { "-via-places" } else if nlisted == listing.len() { "" } else { "-unlisted-target" };
         let listed: Vec<usize> = listing[..nlisted].to_vec();
         let mut lib = tetris::library::Library::new("plib");
         let unit = lib.cells.add(Layout::new("unit", 0, Outline::rect(3, 7).unwrap()));
@@ -713,7 +718,15 @@ impl C17 {
         let mut iptrs: Vec<Option<Ptr<Instance>>> = vec![None; n];
         for (k, &i) in listing.iter().enumerate() {
             let inst = Instance { inst_name: format!("i{i}"), cell: unit.clone(), loc: (10 * i as isize, 5).into(), reflect_horiz: false, reflect_vert: false };
-            iptrs[i] = Some(if k < nlisted { parent.instances.add(inst) } else { Ptr::new(inst) });
+            iptrs[i] = Some(if k >= nlisted {
+                Ptr::new(inst)
+            } else if via_places && f[i] < n {
+                let p = Ptr::new(inst);
+                parent.places.push(Placeable::Instance(p.clone()));
+                p
+            } else {
+                parent.instances.add(inst)
+            });
         }
         for i in 0..n {
             if f[i] < n {
@@ -961,7 +974,7 @@ impl Driver for C17 {
         let m = tier.pick(3, 4);
         Describe {
             rule: format!(
-                "generic utils::DepOrder: every labelled digraph on 1..=4 nodes including self-loops (2^(n*n)) x every ordered non-empty sub-list of the nodes as the item slice (so reachable != all); every loop-free digraph on 5 nodes (2^20) x {} listing orders. Embedded orderers through public entry points, every digraph on 1..={m} nodes with self-loops{} x every listing permutation, edges realised as instances / SREF+AREF / relative placements, raw and tetris graphs additionally with every sink cell abstract-only (no layout view) and with every cell holding both an abstract and a layout view: raw DepOrder::order and Library::to_proto (cell list order), Library::from_gds (imported cell order), tetris Library::dep_order (and once more on the same library object after one more instance was added; and on the not yet placed library whose instances are placed relative to one another), tetris ProtoExporter::export, Placer::place (cell graph), and Placer::place over every functional relation graph on 1..={m} instances ((n+1)^n: chains, stars, trees, self-loops, cycles) x every listing permutation, each also with the last listed instance present but not listed in the layout (reachable only through a relation). A state is (orderer, graph, listing); non-trivial = graph has at least one edge. Oracle: reachable set by DFS, cycle by Kahn elimination; Ok order must be exactly the reachable set, duplicate-free, every node after all its dependencies; reachable cycle => Err.",
+                "generic utils::DepOrder: every labelled digraph on 1..=4 nodes including self-loops (2^(n*n)) x every ordered non-empty sub-list of the nodes as the item slice (so reachable != all); every loop-free digraph on 5 nodes (2^20) x {} listing orders. Embedded orderers through public entry points, every digraph on 1..={m} nodes with self-loops{} x every listing permutation, edges realised as instances / SREF+AREF / relative placements, raw and tetris graphs additionally with every sink cell abstract-only (no layout view) and with every cell holding both an abstract and a layout view: raw DepOrder::order and Library::to_proto (cell list order), Library::from_gds (imported cell order), tetris Library::dep_order (and once more on the same library object after one more instance was added; and on the not yet placed library whose instances are placed relative to one another), tetris ProtoExporter::export, Placer::place (cell graph), and Placer::place over every functional relation graph on 1..={m} instances ((n+1)^n: chains, stars, trees, self-loops, cycles) x every listing permutation, each also with the last listed instance present but not listed in the layout (reachable only through a relation), and with the relatively placed instances handed over in Layout::places instead of Layout::instances. A state is (orderer, graph, listing); non-trivial = graph has at least one edge. Oracle: reachable set by DFS, cycle by Kahn elimination; Ok order must be exactly the reachable set, duplicate-free, every node after all its dependencies; reachable cycle => Err.",
                 if tier.is_thorough() { "all 120" } else { "8 (identity, reverse, 4 rotations, one shuffle)" },
                 if tier.is_thorough() { " and every digraph on 5 nodes without self-loops (2^20)" } else { "" }
             ),
